@@ -1192,20 +1192,16 @@ impl Group {
     }
 
     fn subroots(&self, f: &mut dyn FnMut(&Group)) {
-        if let Some(ref clip) = self.clip_path {
-            f(&clip.root);
-
-            if let Some(ref sub_clip) = clip.clip_path {
-                f(&sub_clip.root);
-            }
+        let mut clip = self.clip_path.as_ref();
+        while let Some(c) = clip {
+            f(&c.root);
+            clip = c.clip_path.as_ref();
         }
 
-        if let Some(ref mask) = self.mask {
-            f(&mask.root);
-
-            if let Some(ref sub_mask) = mask.mask {
-                f(&sub_mask.root);
-            }
+        let mut mask = self.mask.as_ref();
+        while let Some(m) = mask {
+            f(&m.root);
+            mask = m.mask.as_ref();
         }
 
         for filter in &self.filters {
@@ -1734,10 +1730,12 @@ impl Group {
                         clip_paths.push(clip.clone());
                     }
 
-                    if let Some(ref sub_clip) = clip.clip_path {
-                        if !clip_paths.iter().any(|other| Arc::ptr_eq(sub_clip, other)) {
-                            clip_paths.push(sub_clip.clone());
+                    let mut sub_clip = clip.clip_path.as_ref();
+                    while let Some(clip) = sub_clip {
+                        if !clip_paths.iter().any(|other| Arc::ptr_eq(clip, other)) {
+                            clip_paths.push(clip.clone());
                         }
+                        sub_clip = clip.clip_path.as_ref();
                     }
                 }
             }
@@ -1758,10 +1756,12 @@ impl Group {
                         masks.push(mask.clone());
                     }
 
-                    if let Some(ref sub_mask) = mask.mask {
-                        if !masks.iter().any(|other| Arc::ptr_eq(sub_mask, other)) {
-                            masks.push(sub_mask.clone());
+                    let mut sub_mask = mask.mask.as_ref();
+                    while let Some(mask) = sub_mask {
+                        if !masks.iter().any(|other| Arc::ptr_eq(mask, other)) {
+                            masks.push(mask.clone());
                         }
+                        sub_mask = mask.mask.as_ref();
                     }
                 }
             }
